@@ -11,6 +11,7 @@ from spec_classes.errors import FrozenInstanceError
 from spec_classes.types import MISSING, Attr
 from spec_classes.utils.method_builder import MethodBuilder
 from spec_classes.utils.mutation import (
+    _restore_attrs_on_error,
     invalidate_attrs,
     mutate_attr,
     prepare_attr_value,
@@ -292,9 +293,10 @@ class DelAttrMethod(MethodDescriptor):
                 default = attr_spec.lookup_default_value(type(self))
 
             if default is MISSING:
-                self.__delattr__.__raw__(self, attr)
-                if not skip_invalidation:
-                    invalidate_attrs(self, attr)
+                with _restore_attrs_on_error(self):
+                    self.__delattr__.__raw__(self, attr)
+                    if not skip_invalidation:
+                        invalidate_attrs(self, attr)
                 return None
 
             return mutate_attr(
